@@ -167,6 +167,9 @@ class _FakeTime(object):
         self._sim = sim
 
     def time(self):
+        # (the provider reads the clock in every turn of its loop: counting it guarantees that a loop which neither
+        #  polls the socket nor its user queue any more still runs into the budget / livelock detection)
+        self._sim.point('clock')
         return self._sim.now
 
     def sleep(self, dt):
@@ -229,6 +232,7 @@ class Sim(object):
                  get_file_cb=None, accepted_contexts=None, write_fault=None, stall_write=None, stall_seconds=11.5):
         self.role = role
         self.stopped_at = None
+        self._last_log, self._stale = -1, 0
         self.stall_write = stall_write        # index of the write during which the peer pauses reading
         self.stall_seconds = stall_seconds
         self.write_fault = write_fault    # index of the first write on the transport that fails (None: never)
@@ -255,6 +259,16 @@ class Sim(object):
     # -- scheduling ------------------------------------------------------------------------
     def point(self, what):
         self.points += 1
+        # nothing at all happened (no byte read or written, no indication, no scripted step released) for a long
+        # stretch of scheduling points: the loop is spinning without getting anywhere
+        n = len(self.log)
+        if n != self._last_log:
+            self._last_log, self._stale = n, 0
+        else:
+            self._stale += 1
+            if self._stale > 2500:
+                raise Hang('livelock: %d scheduling points in a row without reading, writing, indicating or reaching '
+                           'quiescence (at %s, state %s)' % (self._stale, what, self.state()))
         if self.points > self.budget:
             raise Hang('step budget of %d scheduling points exhausted (livelock) at %s, state %s'
                        % (self.budget, what, self.state()))
